@@ -403,6 +403,7 @@ def rules(ctx):
 FITF = "src/leaspy/algo/fit/mcmc_saem.py"
 SF = "src/leaspy/algo/algo_with_samplers.py"
 VARIANTS = [
+    V("iterations-start-at-two", "src/leaspy/algo/fit/mcmc_saem.py", "for self.current_iteration in range(1, self.algo_parameters[\"n_iter\"] + 1):", "for self.current_iteration in range(2, self.algo_parameters[\"n_iter\"] + 1):", "C05.R6"),
     V("memoryless-while-tempered", "src/leaspy/algo/fit/mcmc_saem.py", "== 1 + self.algo_parameters[\"n_burn_in_iter\"]\n", "== 1 + self.algo_parameters[\"n_burn_in_iter\"]\n            or self.temperature_inv < 1.0\n", "C05.R1"),
     V("burnin-strict", SF, "return self.current_iteration <= self.algo_parameters[\"n_burn_in_iter\"]", "return self.current_iteration < self.algo_parameters[\"n_burn_in_iter\"]", "C05.R1"),
     V("no-first-iteration-reset", FITF, "        if (\n            self._is_burn_in()\n            or self.current_iteration == 1 + self.algo_parameters[\"n_burn_in_iter\"]\n        ):", "        if self._is_burn_in():", "C05.R1"),
